@@ -276,7 +276,7 @@ PROPS = {
         "assumptions": ["user-supplied getters, converters, String methods and hooks are side-effect-free and do not panic"],
     },
     "C03": {
-        "bridge": TABLES + DEC("Function"),
+        "bridge": TABLES + DEC("Function", "Parse"),
         "sweeps": [sweep_front("layout", 150, 6000, cats=["exit", "missing-func"]),
                    sweep_front("mixed", 100, 3000, cats=["exit", "missing-func"]),
                    sweep_front("hooks", 60, 2000, cats=["exit", "missing-func"]),
@@ -379,7 +379,7 @@ PROPS = {
         "assumptions": [],
     },
     "C09": {
-        "bridge": TABLES + ["Convergen.Bridge.IntfOpts"],
+        "bridge": TABLES + ["Convergen.Bridge.IntfOpts"] + DEC("Parse"),
         "sweeps": [sweep_front("scoping", 150, 4000)],
         "rule": FRONT_RULE % "scoping",
         "explanation": "a toggle line sets exactly its toggle (last writer wins), invalid-here notations are ignored, interface "
@@ -444,7 +444,7 @@ PROPS = {
         "assumptions": ["flag parsing is modelled for the four documented flags (the flag package itself is not)"],
     },
     "C14": {
-        "bridge": TABLES + DEC("Hooks", "Function", "Run"),
+        "bridge": TABLES + DEC("Hooks", "Function", "Run", "Parse"),
         "sweeps": [sweep_front("malformed", 200, 6000, cats=["exit", "stderr"]),
                    sweep_front("mixed", 80, 3000, cats=["exit", "stderr"]),
                    sweep_front("plain", 40, 1500, cats=["exit", "stderr"])],
@@ -462,7 +462,7 @@ PROPS = {
         "assumptions": [],
     },
     "C17": {
-        "bridge": TABLES,
+        "bridge": TABLES + DEC("Parse"),
         "sweeps": [sweep_front("selection", 150, 4000, cats=["missing-func", "exit", "stderr"])],
         "rule": FRONT_RULE % "selection",
         "explanation": "entries are exactly visited objects satisfying isTargetIntf (interface, in setup file, named Convergen or "
